@@ -61,7 +61,7 @@ type PkgConfig struct {
 	Ffi string
 }
 
-func getFfi(pkg *packages.Package) string {
+func getFfi(pkg *packages.Package) (string, error) {
 	seenFfis := make(map[string]struct{})
 	packages.Visit([]*packages.Package{pkg},
 		func(pkg *packages.Package) bool {
@@ -80,20 +80,32 @@ func getFfi(pkg *packages.Package) string {
 	)
 
 	if len(seenFfis) > 1 {
-		panic(fmt.Sprintf("multiple ffis used %v", seenFfis))
+		return "", fmt.Errorf("package %s uses multiple ffis %v",
+			pkg.PkgPath, seenFfis)
 	}
 	for ffi := range seenFfis {
-		return ffi
+		return ffi, nil
 	}
-	return "none"
+	return "none", nil
 }
 
 // NewPkgCtx initializes a context based on a properly loaded package
+//
+// Panics if the package uses more than one FFI (translatePackage reports this
+// as an error for that package instead).
 func NewPkgCtx(pkg *packages.Package, tr TranslationConfig) Ctx {
 	// Figure out which FFI we're using
+	ffi, err := getFfi(pkg)
+	if err != nil {
+		panic(err.Error())
+	}
+	return newPkgCtx(pkg, tr, ffi)
+}
+
+func newPkgCtx(pkg *packages.Package, tr TranslationConfig, ffi string) Ctx {
 	config := PkgConfig{
 		TranslationConfig: tr,
-		Ffi:               getFfi(pkg),
+		Ffi:               ffi,
 	}
 
 	return Ctx{
